@@ -239,13 +239,21 @@ func (eval Evaluator) InitOutputUnaryOp(op0, opOut *Element[ring.Poly]) (degree,
 // shared with the receiver and the temporary buffers are reallocated. The receiver and the returned
 // evaluators can be used concurrently.
 func (eval Evaluator) ShallowCopy() *Evaluator {
+
+	// The index map is filled on first use of a Galois element (see CheckAndGetGaloisKey): each copy gets
+	// its own map (the index slices are read-only and shared), else concurrent evaluators would write to the same map.
+	AutomorphismIndex := make(map[uint64][]uint64, len(eval.automorphismIndex))
+	for galEl, index := range eval.automorphismIndex {
+		AutomorphismIndex[galEl] = index
+	}
+
 	return &Evaluator{
 		params:            eval.params,
 		Decomposer:        eval.Decomposer,
 		BasisExtender:     eval.BasisExtender.ShallowCopy(),
 		EvaluatorBuffers:  NewEvaluatorBuffers(eval.params),
 		EvaluationKeySet:  eval.EvaluationKeySet,
-		automorphismIndex: eval.automorphismIndex,
+		automorphismIndex: AutomorphismIndex,
 	}
 }
 
